@@ -179,7 +179,7 @@ def run(ck):
         return replay(ck)
     if not os.environ.get("C19_SKIP_MC"):
         model_check(ck)
-    ngraphs = int(os.environ.get("C19_GRAPHS", "1500" if thorough else "220"))
+    ngraphs = int(os.environ.get("C19_GRAPHS", "2500" if thorough else "500"))
     nq = 10 if thorough else 8
     files = []
     # both node counts: 3 nodes make parallel channels frequent, 4 nodes give 3-hop routes
